@@ -1,6 +1,7 @@
 import Gedcom.Model.Match
 import Driver.Util
-namespace Driver
+namespace Driver.MatH
+open Driver
 open Gedcom Gedcom.Match
 
 /-! Requests about matching individuals (C11).
@@ -73,6 +74,11 @@ def showRes (rs : List Res) : String :=
   " ".intercalate (strs.foldr insertStr [])
 
 def tiesAbove (minW : Rat) (js : List Job) : Bool := !decide (NoScoreTies minW js)
+
+end Driver.MatH
+
+namespace Driver
+open Driver.MatH Gedcom Gedcom.Match
 
 def handleMatch (cmd : String) (rest : List String) : Option String :=
   match cmd with
